@@ -20,7 +20,7 @@ import sys
 from insights.cleaner import Cleaner
 from insights.client.config import InsightsConfig
 from insights.core.context import HostContext
-from insights.core.exceptions import ContentException
+from insights.core.exceptions import ContentException, NoFilterException
 from insights.core.spec_factory import DatasourceProvider, TextFileProvider
 
 UP = "GHJKLMNPRSTVWXY"          # never hexadecimal, never in a marker (Z, Q)
@@ -33,6 +33,7 @@ PUNCT_R = PUNCT + [". "]
 PUNCT_PW_R = list(",;\"'[]{}<>|~?`")
 SPACE = [" ", " ", "\t"]
 PW_SEPS = [": ", ":", "=", " = ", "= \"", "=\"", " ", " --md5 ", ": \"", "\t", " : "]
+AKEY = "AKYHV7"         # the allow-list key of the filterable specs (registered once per process, see filter_specs)
 LINE_MARK = re.compile(r"ZL(\d+)Z")
 GAP_MARK = re.compile(r" ZQ(\d+)Z ")
 
@@ -213,6 +214,9 @@ class Conc(object):
             return self.kw[i], self.kw[i]
         if k == "pat":
             return self.pat[i][1], self.pat[i][1]
+        if k == "akey":
+            tx = pick(rng, ["", "", "x=", "G"]) + AKEY + pick(rng, ["", "", ":", "7"])
+            return tx, tx
         if k == "pw":
             if self.cf["fam"] == "pwip":
                 secret = sens = self.ip[1]
@@ -413,15 +417,68 @@ def universe(case):
     return nid
 
 
-def run_spec(cleaner, spec, lines, path, tmp, tag):
+_VS = {}
+
+
+def filter_specs():
+    """Two generated filterable specs with real registered filters: AKEY with max_match 1 resp. 2."""
+    if not _VS:
+        from insights.core import filters
+        from insights.core.spec_factory import RegistryPoint, SpecSet, simple_file
+
+        class VerifSpecs(SpecSet):
+            f1 = RegistryPoint(filterable=True)
+            f2 = RegistryPoint(filterable=True)
+
+        class VerifImpl(VerifSpecs):
+            f1 = simple_file("verif_f1")
+            f2 = simple_file("verif_f2")
+        filters.add_filter(VerifSpecs.f1, AKEY, 1)
+        filters.add_filter(VerifSpecs.f2, AKEY, 2)
+        _VS.update({1: VerifImpl.f1, 2: VerifImpl.f2, "filters": filters})
+    return _VS
+
+
+def run_spec(cleaner, spec, lines, path, tmp, tag, allow_obj=None):
     """-> (output lines or None when nothing was stored, stored, raised)"""
     texts = [l.text for l in lines]
     noobf = list(spec["noobf"])
+    if path == "filterprovider" and not spec.get("allow"):
+        path = "provider"
+    if path == "filterprovider":
+        # the collection path of a filterable spec: grep pre-filter, then the cleaner with the registered filters
+        vs = filter_specs()
+        ds = vs[spec["allow"]]
+        root = os.path.join(tmp, "root-%s" % tag)
+        os.makedirs(root)
+        dst = os.path.join(root, "archive", "data", "spec")
+        with open(os.path.join(root, "verif_f%d" % spec["allow"]), "w") as f:
+            f.write("".join(t + "\n" for t in texts))
+        raised = False
+        try:
+            try:
+                prov = TextFileProvider("verif_f%d" % spec["allow"], root=root, ds=ds, ctx=HostContext(root=root),
+                                        cleaner=cleaner)
+                prov.write(dst)
+            except (ContentException, NoFilterException):
+                raised = True
+            stored = os.path.exists(dst)
+            out = []
+            if stored:
+                with open(dst) as f:
+                    out = f.read().split("\n")
+        finally:
+            shutil.rmtree(root, True)
+        if allow_obj is not None:
+            allow_obj.clear()
+            allow_obj.update(vs["filters"].get_filters(ds, True))
+        return out, stored, raised
     width = bool(spec.get("width"))
     # the only spec cleaned in fixed-width mode is the one whose path ends in netstat_-neopa (spec_factory.py:109)
     name = "netstat_-neopa" if width else "spec"
     if path == "content":
-        out = cleaner.clean_content(list(texts), no_obfuscate=noobf, no_redact=spec["nored"], width=width)
+        out = cleaner.clean_content(list(texts), no_obfuscate=noobf, no_redact=spec["nored"], width=width,
+                                    allowlist=allow_obj if spec.get("allow") else None)
         return out, len(out) > 0, False
     if path == "file":
         os.makedirs(os.path.join(tmp, "f-%s" % tag))
@@ -544,7 +601,7 @@ def do_case(case, j, seed, path, tmp, facts, stats, prop="C08"):
     for si, spec in enumerate(case["content"]):
         nunm = 0
         lines = []
-        spec["sp"] = dict(spec["sp"], width=bool(spec["sp"].get("width")))
+        spec["sp"] = dict(spec["sp"], width=bool(spec["sp"].get("width")), allow=int(spec["sp"].get("allow") or 0))
         conc.width = spec["sp"]["width"]
         for li, toks in enumerate(spec["lines"]):
             ln = Line(conc, toks, li + 1, True)
@@ -600,48 +657,58 @@ def do_case(case, j, seed, path, tmp, facts, stats, prop="C08"):
 
 
 def do_run_case(case, seed, tmp, stats):
-    """C10: one fresh cleaner, one spec, the application order logged."""
+    """C10: the case is cleaned several times in this process - every time with a FRESH cleaner, the same
+    configuration and the caller's objects (the allow list of a filterable spec) reused - with the application
+    order logged.  The parent puts the repetitions of all child interpreters (one per PYTHONHASHSEED) into one trace."""
     rng = random.Random("%d/%s/run" % (seed, case["id"]))
     cf = case["cf"]
     conc = Conc(rng, cf, universe(case))
-    res = {"specs": []}
-    for path in case.get("paths", ["content", "provider"]):
-        cleaner = make_cleaner(cf, conc, tmp)
-        rng2 = random.Random("%d/%s/run-lines" % (seed, case["id"]))
-        conc.rng = rng2
-        order_log = []
-        for name, o in cleaner.obfuscate.items():
-            if o:
-                def mk(name, orig):
-                    def parse_line(line, **kw):
-                        order_log.append(name)
-                        return orig(line, **kw)
-                    return parse_line
-                o.parse_line = mk(name, o.parse_line)
-        for si, spec in enumerate(case["content"]):
-            conc.width = bool(spec["sp"].get("width"))
-            lines = [Line(conc, toks, li + 1, True) for li, toks in enumerate(spec["lines"])]
-            del order_log[:]
-            tag = "%d-%d-%d" % (os.getpid(), stats["cleanings"], si)
-            out, stored, raised = run_spec(cleaner, spec["sp"], lines, path, tmp, tag)
-            stats["cleanings"] += 1
-            orders = []
-            cur = []
-            for name in order_log:
-                if name in cur:
+    filtered = any(sp["sp"].get("allow") for sp in case["content"])
+    paths = case.get("paths", ["content", "provider"])
+    allow_objs = dict(((p, si), {AKEY: sp["sp"]["allow"]}) for p in paths for si, sp in enumerate(case["content"])
+                      if sp["sp"].get("allow"))
+    reps = []
+    for ri in range(3 if filtered else 2):
+        res = {"specs": []}
+        for path in paths:
+            cleaner = make_cleaner(cf, conc, tmp)
+            conc.rng = random.Random("%d/%s/run-lines" % (seed, case["id"]))
+            order_log = []
+            for name, o in cleaner.obfuscate.items():
+                if o:
+                    def mk(name, orig):
+                        def parse_line(line, **kw):
+                            order_log.append(name)
+                            return orig(line, **kw)
+                        return parse_line
+                    o.parse_line = mk(name, o.parse_line)
+            for si, spec in enumerate(case["content"]):
+                conc.width = bool(spec["sp"].get("width"))
+                lines = [Line(conc, toks, li + 1, True) for li, toks in enumerate(spec["lines"])]
+                del order_log[:]
+                tag = "%d-%d-%d" % (os.getpid(), stats["cleanings"], si)
+                aobj = allow_objs.get((path, si))
+                out, stored, raised = run_spec(cleaner, spec["sp"], lines, path, tmp, tag, aobj)
+                stats["cleanings"] += 1
+                orders = []
+                cur = []
+                for name in order_log:
+                    if name in cur:
+                        orders.append(cur)
+                        cur = []
+                    cur.append(name)
+                if cur:
                     orders.append(cur)
-                    cur = []
-                cur.append(name)
-            if cur:
-                orders.append(cur)
-            uniq = []
-            for o in orders:
-                if o not in uniq:
-                    uniq.append(o)
-            res["specs"].append({"path": path, "si": si + 1, "orders": uniq, "out": provenance(out, lines),
-                                 "texts": out, "stored": stored, "raised": raised,
-                                 "input": [l.text for l in lines]})
-    return res
+                uniq = []
+                for o in orders:
+                    if o not in uniq:
+                        uniq.append(o)
+                res["specs"].append({"path": path, "si": si + 1, "orders": uniq, "out": provenance(out, lines),
+                                     "texts": out, "stored": stored, "raised": raised,
+                                     "mutated": aobj is not None and aobj != {AKEY: spec["sp"]["allow"]},
+                                     "input": [l.text for l in lines]})
+        reps.append(res)
+    return {"reps": reps}
 
 
 def main():
